@@ -233,6 +233,19 @@ let check_table acc st ~props ~klass ~(table_json : unit -> json) ~(path : strin
              fail acc ~kind:"spec_violation" ~what:("[C01] mtbl_dump " ^ !args ^ " does not print exactly the matching subsequence") (table_json ())
          end
        end;
+       (* mtbl_dump -k / -v with every short prefix of the stored keys and values (binary prefixes, embedded 0x00) *)
+       if with_dump && klass = "binary_keys_dump" then begin
+         let tohex s = String.concat "" (List.init (String.length s) (fun i -> Printf.sprintf "%02x" (Char.code s.[i]))) in
+         let prefixes_of l = List.sort_uniq compare (List.concat_map (fun s -> List.init (min 4 (String.length s)) (fun i -> String.sub s 0 (i + 1))) l) in
+         List.iter (fun p ->
+           bump acc "mtbl_dump_runs";
+           if run_dump path ("-x -k " ^ tohex p) <> List.map dump_line (List.filter (fun (k, _) -> is_prefix p k) es) then
+             fail acc ~kind:"spec_violation" ~what:("[C01] mtbl_dump -k " ^ tohex p ^ " does not print exactly the entries whose key begins with the prefix") (table_json ())) (prefixes_of (List.map fst es));
+         List.iter (fun p ->
+           bump acc "mtbl_dump_runs";
+           if run_dump path ("-x -v " ^ tohex p) <> List.map dump_line (List.filter (fun (_, v) -> is_prefix p v) es) then
+             fail acc ~kind:"spec_violation" ~what:("[C01] mtbl_dump -v " ^ tohex p ^ " does not print exactly the entries whose value begins with the prefix") (table_json ())) (prefixes_of (List.map snd es))
+       end;
        (* C02: lookups *)
        let qs = query_set esa (index_keys rd) in
        (* quick tier: a random sample of the query set per table *)
@@ -387,7 +400,7 @@ let run ~tier ~seed ~only acc =
        (* the table is read in place: a foreign prefix stays in front of it (offsets in the file are absolute) *)
        let file = read_file path in
        if Int64.compare c.prefix 0L > 0 then bump acc "tables_with_foreign_prefix";
-       (match with_child_acc acc (fun a -> check_table a st ~props:"[C01,C02,C03]" ~klass ~table_json ~path ~file ~es ~with_dump:(rint st 3 = 0) ~tier) with
+       (match with_child_acc acc (fun a -> check_table a st ~props:"[C01,C02,C03]" ~klass ~table_json ~path ~file ~es ~with_dump:(rint st 3 = 0 || klass = "binary_keys_dump") ~tier) with
         | None -> ()
         | Some sg -> fail acc ~kind:"spec_violation" ~what:(Printf.sprintf "[C01,C02,C03] the reader stopped (signal %d) while iterating / querying a table written by the writer" sg) (table_json ()))
      | _ -> fail acc ~kind:"model_mismatch" ~what:"[C01] writer run failed" (table_json ()));
@@ -404,6 +417,7 @@ let run ~tier ~seed ~only acc =
      List.map (fun k -> (k, String.make 400 '1'))
        (List.sort_uniq compare (List.concat_map (fun (a, b) -> [ a; b ]) sep_pairs)));
     ("empty_table", base, []);
+    ("binary_keys_dump", base, [ ("a", "v\000w"); ("a\000b", "v\000x"); ("a\000bd", "v"); ("a\000c", "\000"); ("ab", "v\000wz"); ("b\000\000", "\000\000y"); ("b\000\001", "") ]);
     ("restart_interval_1", { base with interval = Some 1 }, k12);
     ("restart_interval_3_zstd", { base with interval = Some 3; comp = 5 }, k12);
   ] in
